@@ -56,6 +56,7 @@ CRATE_FINDERS = {
     "plan": ("src/app/run.rs", "units/plan/finder_test.rs"),
     "checkpoint": ("src/app/analyze.rs", "units/checkpoint/finder_test.rs"),
     "git": ("src/core/git.rs", "units/git/finder_test.rs"),
+    "runhandle": ("src/app/run.rs", "units/runhandle/finder_test.rs"),
 }
 # further finders of a unit (integration tests driving the binary)
 EXTRA_FINDERS = {"log": [("tests/", "units/log/finder_show_test.rs"), ("tests/", "units/log/finder_tail_test.rs")], "config": [("tests/", "units/config/finder_generate_test.rs")],
